@@ -36,9 +36,16 @@ FwdOpenMsg == << P("fo.svc", <<84>>), P("fo.pathsz", <<2>>), P("fo.path", <<32, 
                  P("fo.oserial", <<120, 86, 52, 18>>), P("fo.mult", <<1, 0, 0, 0>>), P("fo.otrpi", <<64, 66, 15, 0>>), P("fo.otncp", U16(17396)),
                  P("fo.torpi", <<64, 66, 15, 0>>), P("fo.toncp", U16(17396)), P("fo.trigger", <<163>>), P("fo.cpsize", <<3>>),
                  P("fo.cpath", <<1, 0, 32, 2, 36, 1>>) >>
+\* Set Attribute Single of the whole attribute 2/1/1 (tag A): 7, 8, 9 -- one part per element
+SasMsg == << P("sas.svc", <<16>>), P("sas.pathsz", <<3>>), P("sas.path", <<32, 2, 36, 1, 48, 1>>), P("sas.d1", <<7, 0>>), P("sas.d2", <<8, 0>>),
+             P("sas.d3", <<9, 0>>) >>
 Bases == [ write |-> RR(UCWrap(WriteMsg)), read |-> RR(ReadMsg), bundle |-> RR(UCWrap(BundleMsg)), register |-> RegisterParts,
-           fwdopen |-> RR(FwdOpenMsg) ]
-BaseNames == {"write", "read", "bundle", "register", "fwdopen"}
+           fwdopen |-> RR(FwdOpenMsg), sas |-> RR(SasMsg) ]
+BaseNames == {"write", "read", "bundle", "register", "fwdopen", "sas"}
+\* the CIP message inside each base frame: mutated on its own and then framed again, so that every enclosing length
+\* field is consistent with the mutated message ("reframed" plans: the hostile part is the message, not its envelope)
+Inner == [ write |-> WriteMsg, read |-> ReadMsg, bundle |-> BundleMsg, fwdopen |-> FwdOpenMsg, sas |-> SasMsg ]
+InnerNames == {"write", "read", "bundle", "fwdopen", "sas"}
 
 Ops == {"zero", "inc", "dec", "max", "drop", "dup", "flip", "cutafter", "cutinside", "insert"}
 Mut(b, op) ==
@@ -53,14 +60,30 @@ Mutated(ps, i, op) ==
   ELSE IF op = "cutinside" THEN Bytes(SubSeq(ps, 1, i - 1)) \o SubSeq(ps[i].b, 1, Len(ps[i].b) \div 2)
   ELSE Bytes([ j \in 1 .. Len(ps) |-> IF j = i THEN [ps[j] EXCEPT !.b = Mut(ps[j].b, op)] ELSE ps[j] ])
 
-Plans == { [base |-> bn, part |-> i, op |-> op] : bn \in BaseNames, op \in Ops, i \in 1 .. 40 }
-GoodPlans == { p \in Plans : p.part <= Len(Bases[p.base]) /\ Mutated(Bases[p.base], p.part, p.op) # Bytes(Bases[p.base]) }
+Reframed(bn, i, op) == LET m == << P("msg.mutated", Mutated(Inner[bn], i, op)) >> IN
+                       Bytes(IF bn \in {"write", "bundle"} THEN RR(UCWrap(m)) ELSE RR(m))
+Plans == { [base |-> bn, part |-> i, op |-> op, kind |-> kd] : bn \in BaseNames, op \in Ops, i \in 1 .. 40, kd \in {"frame", "inner"} }
+Octets(p) == IF p.kind = "frame" THEN Mutated(Bases[p.base], p.part, p.op) ELSE Reframed(p.base, p.part, p.op)
+GoodPlans == { p \in Plans : /\ (p.kind = "frame" => p.part <= Len(Bases[p.base]))
+                             /\ (p.kind = "inner" => p.base \in InnerNames /\ p.part <= Len(Inner[p.base]))
+                             /\ Octets(p) # Bytes(Bases[p.base]) }
 \* does the mutated stream still contain the complete, untouched CIP write message of its base frame?
 Contains(big, small) == \E off \in 0 .. (Len(big) - Len(small)) : SubSeq(big, off + 1, off + Len(small)) = small
-WriteIntact(p) == p.base \in {"write", "bundle"} /\ Contains(Mutated(Bases[p.base], p.part, p.op), Bytes(WriteMsg))
-EmitPlan(p) == PrintT(ToJson([k |-> "plan", base |-> p.base, part |-> Bases[p.base][p.part].n, op |-> p.op,
-                              b |-> Mutated(Bases[p.base], p.part, p.op), valid |-> Bytes(Bases[p.base]), intact |-> WriteIntact(p)]))
-ASSUME PrintT(ToJson([k |-> "cfg", cfg |-> HCfg, register |-> Bytes(RegisterParts), read |-> Bytes(Bases["read"])]))
+WriteIntact(p) == \/ p.base \in {"write", "bundle"} /\ Contains(Octets(p), Bytes(WriteMsg))
+                  \/ p.base = "sas" /\ Contains(Octets(p), Bytes(SasMsg))
+\* that message as a request of the model (LogixOps), and the memory [[1, 2, 3], [4]] after it
+WReq(p) == IF p.base = "sas"
+           THEN [svc |-> "sas", tag |-> 1, mode |-> "cia", idx |-> 0 - 1, n |-> 0, off |-> 0, typ |-> "INT", vals |-> <<>>, bytes |-> <<7, 0, 8, 0, 9, 0>>, ms |-> <<>>]
+           ELSE [svc |-> "write", tag |-> 1, mode |-> "sym", idx |-> 1, n |-> 2, off |-> 0, typ |-> "INT", vals |-> << <<5, 0>>, <<6, 0>> >>, bytes |-> <<>>, ms |-> <<>>]
+HMem0 == << << <<1, 0>>, <<2, 0>>, <<3, 0>> >>, << <<4, 0, 0, 0>> >> >>
+WExp(p) == IF ~WriteIntact(p) THEN <<>> ELSE (CHOOSE o \in SingleOuts(HCfg, HMem0, WReq(p)) : o.k = "ok").mem
+PartName(p) == IF p.kind = "frame" THEN Bases[p.base][p.part].n ELSE "reframed:" \o Inner[p.base][p.part].n
+EmitPlan(p) == PrintT(ToJson([k |-> "plan", base |-> p.base, part |-> PartName(p), op |-> p.op, b |-> Octets(p), valid |-> Bytes(Bases[p.base]),
+                              intact |-> WriteIntact(p), wexp |-> WExp(p), wreq |-> WReq(p)]))
+WExpOf(r) == (CHOOSE o \in SingleOuts(HCfg, HMem0, r) : o.k = "ok").mem
+ASSUME PrintT(ToJson([k |-> "cfg", cfg |-> HCfg, mem0 |-> HMem0,
+                      wmsgs |-> << [b |-> Bytes(WriteMsg), wexp |-> WExpOf(WReq([base |-> "write"])), wreq |-> WReq([base |-> "write"])],
+                                   [b |-> Bytes(SasMsg), wexp |-> WExpOf(WReq([base |-> "sas"])), wreq |-> WReq([base |-> "sas"])] >>, register |-> Bytes(RegisterParts), read |-> Bytes(Bases["read"])]))
 VARIABLE plan
 HInit == plan \in GoodPlans
 HNext == FALSE /\ UNCHANGED plan
